@@ -7,6 +7,7 @@ import (
 	"os"
 	"path/filepath"
 	"sort"
+	"strings"
 	"testing"
 	"testing/synctest"
 	"time"
@@ -48,10 +49,14 @@ type c11mScenario struct {
 	Interval int      `json:"interval"` // maintenance interval, seconds
 	Ops      []c11mOp `json:"ops"`
 	Clean    bool     `json:"clean"` // clean shutdown (final snapshot) or kill after a quiet maintenance interval
+	// SizeLimit: --silences.max-silence-size-bytes for every process life (0: unlimited). Op "new-max" then creates
+	// the largest silence the limit admits.
+	SizeLimit int `json:"size_limit,omitempty"`
 }
 
 func genC11M(t *rapid.T) c11mScenario {
-	sc := c11mScenario{Interval: rapid.SampledFrom([]int{60, 900}).Draw(t, "interval"), Clean: rapid.Bool().Draw(t, "clean")}
+	sc := c11mScenario{Interval: rapid.SampledFrom([]int{60, 900}).Draw(t, "interval"), Clean: rapid.Bool().Draw(t, "clean"),
+		SizeLimit: rapid.SampledFrom([]int{0, 0, 300, 1024}).Draw(t, "sizeLimit")}
 	n := rapid.IntRange(2, 14).Draw(t, "n")
 	created := 0
 	for i := 0; i < n; i++ {
@@ -61,7 +66,11 @@ func genC11M(t *rapid.T) c11mScenario {
 		}
 		switch {
 		case k < 2:
-			sc.Ops = append(sc.Ops, c11mOp{Kind: "new", EndOff: rapid.SampledFrom([]int{300, 3600, 36000}).Draw(t, "end")})
+			op := c11mOp{Kind: "new", EndOff: rapid.SampledFrom([]int{300, 3600, 36000}).Draw(t, "end")}
+			if sc.SizeLimit > 0 && rapid.Bool().Draw(t, "max") {
+				op.Kind = "new-max"
+			}
+			sc.Ops = append(sc.Ops, op)
 			created++
 		case k < 4:
 			sc.Ops = append(sc.Ops, c11mOp{Kind: "extend", Sil: rapid.IntRange(0, created-1).Draw(t, "sil"), EndOff: rapid.SampledFrom([]int{600, 7200, 72000}).Draw(t, "end")})
@@ -93,11 +102,13 @@ func execC11M(sc c11mScenario) (res pbt.Result) {
 	defer os.RemoveAll(dir)
 	silFile, nflFile := filepath.Join(dir, "silences"), filepath.Join(dir, "nflog")
 	changedAfterSnapshot := false
+	sizeLimited := false
 	synctest.Test(pbt.T(), func(*testing.T) {
 		compat.InitFromFlags(nopLog, featurecontrol.NoopFlags{})
 		ctx := context.Background()
 		ret := 120 * time.Hour
-		sil, err := silence.New(silence.Options{SnapshotFile: silFile, Retention: ret, Logger: nopLog, Metrics: prometheus.NewRegistry(), EventRecorder: eventrecorder.NopRecorder()})
+		limits := silence.Limits{MaxSilences: func() int { return 0 }, MaxSilenceSizeBytes: func() int { return sc.SizeLimit }}
+		sil, err := silence.New(silence.Options{SnapshotFile: silFile, Retention: ret, Logger: nopLog, Metrics: prometheus.NewRegistry(), EventRecorder: eventrecorder.NopRecorder(), Limits: limits})
 		if err != nil {
 			res.Fail("harness", "%v", err)
 			return
@@ -130,6 +141,24 @@ func execC11M(sc c11mScenario) (res pbt.Result) {
 				} else {
 					ids = append(ids, s.Id)
 					lastChange = now
+				}
+			case "new-max":
+				// the largest silence the size limit admits: lengthen the comment until Set refuses
+				var okS *pb.Silence
+				for n := sc.SizeLimit; n >= 0; n-- {
+					s := &pb.Silence{MatcherSets: []*pb.MatcherSet{{Matchers: []*pb.Matcher{{Type: pb.Matcher_EQUAL, Name: "a", Pattern: fmt.Sprintf("v%d", i)}}}},
+						StartsAt: timestamppb.New(now), EndsAt: timestamppb.New(now.Add(time.Duration(op.EndOff) * time.Second)), CreatedBy: "c11m", Comment: strings.Repeat("c", n)}
+					if err := sil.Set(ctx, s); err == nil {
+						okS = s
+						break
+					}
+				}
+				if okS == nil {
+					res.Fail("harness", "no silence fits the size limit %d", sc.SizeLimit)
+				} else {
+					ids = append(ids, okS.Id)
+					lastChange = now
+					sizeLimited = true
 				}
 			case "extend", "comment":
 				cur, err := sil.QueryOne(ctx, silence.QIDs(ids[op.Sil%len(ids)]))
@@ -212,7 +241,7 @@ func execC11M(sc c11mScenario) (res pbt.Result) {
 			silCopy, nflCopy = silFile, nflFile
 		}
 		// next start
-		sil2, err := silence.New(silence.Options{SnapshotFile: silCopy, Retention: ret, Logger: nopLog, Metrics: prometheus.NewRegistry(), EventRecorder: eventrecorder.NopRecorder()})
+		sil2, err := silence.New(silence.Options{SnapshotFile: silCopy, Retention: ret, Logger: nopLog, Metrics: prometheus.NewRegistry(), EventRecorder: eventrecorder.NopRecorder(), Limits: limits})
 		if err != nil {
 			res.Add(pbt.V("start-refused", "silence.New on the snapshot it wrote itself: %v", err))
 			return
@@ -265,6 +294,9 @@ func execC11M(sc c11mScenario) (res pbt.Result) {
 	}
 	if changedAfterSnapshot {
 		res.Class("changed-after-a-periodic-snapshot")
+	}
+	if sizeLimited {
+		res.Class("silence-at-the-size-limit")
 	}
 	return res
 }
